@@ -14,33 +14,7 @@
 #include <stdio.h>
 #endif
 #include "../common/stdstreams.h"
-#include "clutils/Str.h"
-// Assume-guarantee cut for the scanner harnesses: the stream effect of GetLiteralStr (Str.cc) written without the accumulated
-// std::string -- the "ends with \S\" test becomes a three-character window.  gls_equiv (h_gls.c) proves real == contract on every
-// stream within its bound; seek_end / next_instance then run the real sectionReader code over the contract (GLS_CONTRACT).  The
-// returned text is outside the contract (both sectionReader call sites discard it).
-std::string GetLiteralStr_contract(istream &in, ErrorDescriptor *err) {
-    in >> std::ws;
-    if(in.good() && in.peek() == STRING_DELIM) {
-        int c1 = in.get(), c2 = -1, c3 = -1;
-        bool allDelimsEscaped = true;
-        while(in.good()) {
-            if(in.peek() == STRING_DELIM) {
-                if(!(c3 == '\\' && c2 == 'S' && c1 == '\\')) allDelimsEscaped = !allDelimsEscaped;
-            } else if(!allDelimsEscaped) break;
-            if(!in.eof()) { int c = in.get(); c3 = c2; c2 = c1; c1 = c; }
-        }
-        if(allDelimsEscaped) {
-            err->AppendToDetailMsg("Missing closing quote on string value.\n");
-            err->AppendToUserMsg("Missing closing quote on string value.\n");
-            err->GreaterSeverity(SEVERITY_INPUT_ERROR);
-        }
-    }
-    return std::string();
-}
-#if defined(VSTD) && defined(GLS_CONTRACT)
-std::string GetLiteralStr(istream &in, ErrorDescriptor *err) { return GetLiteralStr_contract(in, err); }   // Str.cc is not linked in this configuration
-#endif
+#include "../common/gls_contract.h"
 union RdStore { lazyP21DataSectionReader r; RdStore() {} ~RdStore() {} };
 union FrStore { lazyFileReader f; FrStore() {} ~FrStore() {} };
 union ImStore { lazyInstMgr m; ImStore() {} ~ImStore() {} };
@@ -69,7 +43,7 @@ __attribute__((noinline)) long w_next_instance(const char *text, char *kw, int k
 }
 #ifndef GLS_CONTRACT
 // runs the real GetLiteralStr (which = 0) or its contract (which = 1) on `text`; reports the stream effect and the error severity
-__attribute__((noinline)) void w_gls(const char *text, int which, long *endpos, int *good, int *eof, int *sev) {
+__attribute__((noinline)) void w_gls(const char *text, int which, long *endpos, int *good, int *eof, int *sev, int *nonempty) {
     ErrorDescriptor e;
     std::ifstream file;
 #ifdef VSTD
@@ -77,7 +51,7 @@ __attribute__((noinline)) void w_gls(const char *text, int which, long *endpos, 
 #else
     { static char path[64]; snprintf(path, sizeof path, "/var/tmp/verif_c10_%d.p21", (int)getpid()); FILE *fp = fopen(path, "w"); fputs(text, fp); fclose(fp); file.open(path); unlink(path); }
 #endif
-    if(which) GetLiteralStr_contract(file, &e); else GetLiteralStr(file, &e);
+    std::string r = which ? GetLiteralStr_contract(file, &e) : GetLiteralStr(file, &e); *nonempty = r.empty() ? 0 : 1;
     *good = file.good() ? 1 : 0; *eof = file.eof() ? 1 : 0; *sev = (int)e.severity(); *endpos = verif_pos(file);
 }
 #endif
